@@ -216,7 +216,9 @@ func appendTerms(left, right [][]*node) [][]*node {
 	var result [][]*node
 	for _, r := range right {
 		for _, l := range left {
-			tmp := l
+			// copy: l may have spare capacity that is shared with the other alternatives
+			tmp := make([]*node, 0, len(l)+len(r))
+			tmp = append(tmp, l...)
 			tmp = append(tmp, r...)
 			result = append(result, tmp)
 		}
